@@ -242,6 +242,13 @@ def main():
         except gen_tables.ShapeError as e:
             tie_broken.append("translator: %s" % e)
 
+    for g in prop.get("generators", []):
+        mod = __import__(g)
+        try:
+            mod.generate()
+        except mod.ShapeError as e:
+            tie_broken.append("translator %s: %s" % (g, e))
+
     # (1,2) proofs + audit
     log("lean build", prop["lean_modules"])
     lp = lean_phase(prop)
